@@ -66,6 +66,9 @@ def gen(rng, idx, tier):
         "identity": ident, "id_response_requested": rng.randrange(2),
         "handler": rng.choice(["unbound", "true", "true_resp", "false", "raise", "notimpl"]),
         "pipeline": rng.choice(["none", "same_segment", "before_answer", "after_answer", "all"]),
+        # how the identity handler got bound: with the server's start, later on the running server, or by rotating
+        # handlers on the running server (bind the new one, then unbind the old, permissive one)
+        "bind_how": rng.choice(["start", "start", "late", "rotate"]),
         "sched": C.gen_sched(rng, fine_pct=15), "net": C.gen_net(rng),
     }
     return sc
@@ -125,9 +128,16 @@ def execute(sc, ctx):
             raise NotImplementedError("not implemented by the user")
         raise ValueError("identity handler failure")
 
+    def old_permissive(event):
+        sim.record("handler", op="user_id_old", type=event.user_id_type)
+        return True, None
+
+    how = sc.get("bind_how", "start") if sc["handler"] != "unbound" else "start"
     hh = [(evt.EVT_C_ECHO, mk("echo")), (evt.EVT_C_STORE, mk("store"))]
-    if sc["handler"] != "unbound":
+    if sc["handler"] != "unbound" and how == "start":
         hh.append((evt.EVT_USER_ID, on_user_id))
+    if how == "rotate":
+        hh.append((evt.EVT_USER_ID, old_permissive))
     try:
         ae = ctx.make_ae((sc["own"] + sc["own_pad"]), acse=0.3, dimse=0.3, network=0.3)
     except ValueError as e:  # title refused by the API: not a case
@@ -143,7 +153,11 @@ def execute(sc, ctx):
         return
     ctx.obs["configured_calling"] = list(ae.require_calling_aet)
     ctx.obs["own_title"] = ae.ae_title
-    ctx.start_server(ae, handlers=hh)
+    srv = ctx.start_server(ae, handlers=hh)
+    if how in ("late", "rotate"):
+        srv.bind(evt.EVT_USER_ID, on_user_id)
+    if how == "rotate":
+        srv.unbind(evt.EVT_USER_ID, old_permissive)
     p = RawPeer(ctx)
     p.connect()
     extra = []
